@@ -12,7 +12,7 @@
 
 static fiber_mutex_t M;
 static fiber_cond_t C;
-static int W, mode, hold, extra, rewait, early;
+static int W, mode, hold, extra, rewait, early, nsig = 1;
 static int g_registered, g_returned, g_credits, g_owner = -1, g_sigdone;
 
 GHOST static void own(int id) {
@@ -33,7 +33,7 @@ GHOST static void returned(int id) {
   fmc_obs(id);
 }
 GHOST static void credit(int n) { g_credits += n; }
-GHOST static void sigdone(void) { g_sigdone = 1; }
+GHOST static void sigdone(void) { g_sigdone++; }
 
 static void* waiter(void* p) {
   int id = (int)(intptr_t)p;
@@ -72,8 +72,18 @@ static void* stray(void* p) {
   return 0;
 }
 
+// -Dnoise=K: one more fiber does nothing but yield K times, so that the kernel thread it is on keeps
+// pushing and popping its own run queue while the signals and wake-ups happen
+static void* noise(void* p) {
+  for (int k = 0; k < (int)(intptr_t)p; k++) fiber_yield();
+  return 0;
+}
+
+// -Dsignallers=2: the W targeted signals are issued by two fibers concurrently (they contend on
+// the condition variable's internal mutex, so one of them blocks inside fiber_cond_signal and may
+// be resumed on a different kernel thread)
 static void* signaller(void* p) {
-  int id = 9;
+  int id = 9 + (int)(intptr_t)p;
   // -Dearly=k: k signals are issued without looking whether anybody waits (they may race with
   // a waiter that is just registering, or hit an empty condition variable); each is a credit.
   for (int k = 0; k < early; k++) {
@@ -81,7 +91,7 @@ static void* signaller(void* p) {
     fiber_cond_signal(&C);
   }
   if (mode == 0) {  // W signals (re-wait: one registration round per signal)
-    int total = W * (1 + rewait);
+    int total = W * (1 + rewait) / nsig;
     for (int k = 0; k < total; k++) {
       wait_registered(id, rewait ? k + 1 : W, hold);
       credit(1);
@@ -100,7 +110,7 @@ static void* signaller(void* p) {
 
 static int at_quiescence(void) {
   int expect = mode == 0 ? W * (1 + rewait) : W + extra;
-  if (!g_sigdone) fmc_fail("cond: the signaller itself is stuck");
+  if (g_sigdone < nsig) fmc_fail("cond: the signaller itself is stuck");
   // an early signal that found a waiter consumed its registration: the targeted signal for that
   // registration is then aimed at nobody. What must hold: at least `expect` credits were aimed at
   // registered waiters in total only when early==0; with early signals every waiter that is still
@@ -132,8 +142,10 @@ int harness_main(void) {
   fmc_focus(&C, sizeof C);
   fmc_begin();
   for (int i = 0; i < W + extra; i++) fiber_detach(fiber_create(STK, waiter, (void*)(intptr_t)i));
-  fiber_detach(fiber_create(STK, signaller, 0));
+  nsig = fmc_param("signallers", 1);
+  for (int i = 0; i < nsig; i++) fiber_detach(fiber_create(STK, signaller, (void*)(intptr_t)i));
   if (fmc_param("stray", 0)) fiber_detach(fiber_create(STK, stray, 0));
+  if (fmc_param("noise", 0)) fiber_detach(fiber_create(STK, noise, (void*)(intptr_t)fmc_param("noise", 0)));
   rt_park_until_quiescent(at_quiescence);
   return 0;
 }
